@@ -1119,6 +1119,103 @@ Proof.
   - apply data_safe; assumption.
 Qed.
 
+(* ---- finiteness of the completeness ratios (F32Proofs: float32 division of integers up to 2^24) -------- *)
+From Burrow Require F32Proofs EvalCompleteProofs.
+
+(* at most 2^24 partitions in the group and at most 2^24 slots in every partition's window *)
+Definition bounded (ts : list (Z * list Eval.cpart)) : Prop :=
+  (Z.of_nat (List.length (EvalCompleteProofs.all_parts ts)) <= 2 ^ 24)%Z /\
+  Forall (fun p => (Z.of_nat (List.length (Eval.cp_offsets p)) <= 2 ^ 24)%Z) (EvalCompleteProofs.all_parts ts).
+
+Lemma partition_complete_finite : forall p minimum allowed now s st en c,
+  (Z.of_nat (List.length (Eval.cp_offsets p)) <= 2 ^ 24)%Z ->
+  Eval.eval_partition p minimum allowed now = Eval.Ok (s, st, en, c) -> f32_finite c = true.
+Proof.
+  intros p minimum allowed now s st en c Hn. unfold Eval.eval_partition. cbv zeta.
+  destruct (List.length (Eval.cp_offsets p)) as [|n0] eqn:En.
+  - intros H; injection H as _ _ _ <-. apply F32Proofs.f32_zero_R.
+  - match goal with |- context [skipn ?f (Eval.cp_offsets p)] => set (offs := skipn f (Eval.cp_offsets p)) end.
+    assert (Hk : (List.length offs <= S n0)%nat) by (subst offs; rewrite skipn_length, En; lia).
+    match goal with |- context [if (List.length offs <? S n0)%nat then ?a else ?b] =>
+      set (complete := if (List.length offs <? S n0)%nat then a else b) end.
+    assert (Hfin : f32_finite complete = true).
+    { subst complete. destruct (List.length offs <? S n0)%nat.
+      - apply F32Proofs.f32_div_correct_frac; lia.
+      - apply F32Proofs.f32_one_R. }
+    clearbody complete. destruct offs as [|o r]; [intros H; injection H as _ _ _ <-; exact Hfin|].
+    destruct (F32.f32_ge complete minimum).
+    + destruct (Eval.calc_status _ _ _ _ _); [|discriminate]. intros H; injection H as _ _ _ <-; exact Hfin.
+    + intros H; injection H as _ _ _ <-; exact Hfin.
+Qed.
+
+Lemma group_finite : forall ts minimum allowed now g,
+  bounded ts -> Eval.eval_group ts minimum allowed now = Eval.Ok g ->
+  f32_finite (Eval.gs_complete g) = true /\
+  Forall (fun s => f32_finite (Eval.ps_complete s) = true) (Eval.gs_partitions g) /\
+  (forall m, Eval.gs_maxlag g = Some m -> f32_finite (Eval.ps_complete m) = true).
+Proof.
+  intros ts minimum allowed now g [Hlen Hall] Hg.
+  destruct (EvalGroupProofs.eval_group_spec _ _ _ _ _ Hg) as (parts & E & Hp & _ & Hmx & _ & _ & _ & Hc).
+  pose proof (EvalCompleteProofs.eval_topics_parts _ _ _ _ _ E) as HF.
+  assert (Hl : List.length parts = List.length (EvalCompleteProofs.all_parts ts)) by (clear -HF; induction HF; simpl; auto).
+  assert (Hparts : Forall (fun s => f32_finite (Eval.ps_complete s) = true) parts).
+  { clear Hl Hlen Hc Hmx Hp E Hg. induction HF as [|p s ps l (st & st' & en & Hev) _ IH]; constructor.
+    - inversion Hall; subst. eapply partition_complete_finite; eauto.
+    - apply IH. inversion Hall; assumption. }
+  split; [|split].
+  - rewrite Hc. destruct (0 <? Z.of_nat (List.length parts))%Z eqn:E0; [|apply F32Proofs.f32_zero_R].
+    apply Z.ltb_lt in E0.
+    pose proof (EvalCompleteProofs.filter_len_le EvalGroupProofs.is_complete parts) as Hf.
+    apply F32Proofs.f32_div_correct_frac; unfold EvalGroupProofs.count_complete; lia.
+  - rewrite Hp. exact Hparts.
+  - intros m Hm. rewrite Hmx in Hm. pose proof (EvalGroupProofs.maxlag_is_max parts) as Hmax.
+    rewrite Hm in Hmax. destruct Hmax as [Hin _]. rewrite Forall_forall in Hparts. auto.
+Qed.
+
+Section SafeNames.
+  Variable nm : Z -> string.
+
+  Definition part_names_safe (p : Eval.pstatus) : bool :=
+    safe_string (nm (Eval.ps_topic p)) && safe_string (nm (Eval.ps_owner p)) && safe_string (nm (Eval.ps_client p)).
+
+  (* JSON-safe topic, owner and client names throughout a group status *)
+  Definition group_names_safe (g : Eval.gstatus) : bool :=
+    forallb part_names_safe (Eval.gs_partitions g) &&
+    match Eval.gs_maxlag g with Some p => part_names_safe p | None => true end.
+
+  Lemma group_safe_of : forall ts minimum allowed now g,
+    bounded ts -> Eval.eval_group ts minimum allowed now = Eval.Ok g ->
+    group_names_safe (Eval.filter_view g) = true -> group_safe nm (Eval.filter_view g) = true.
+  Proof.
+    intros ts minimum allowed now g Hb Hg Hn.
+    destruct (group_finite _ _ _ _ _ Hb Hg) as [Hc [Hp Hm]].
+    unfold group_names_safe in Hn. apply andb_prop in Hn. destruct Hn as [Hn1 Hn2].
+    unfold group_safe. simpl in *. rewrite Hc. simpl.
+    apply andb_true_intro. split.
+    - apply forallb_forall. intros s Hs. rewrite forallb_forall in Hn1. specialize (Hn1 s Hs).
+      apply filter_In in Hs. destruct Hs as [Hin _]. rewrite Forall_forall in Hp. specialize (Hp s Hin).
+      change (part_safe nm s) with (part_names_safe s && f32_finite (Eval.ps_complete s)). rewrite Hn1, Hp. reflexivity.
+    - destruct (Eval.gs_maxlag g) as [m|]; [|reflexivity].
+      change (part_safe nm m) with (part_names_safe m && f32_finite (Eval.ps_complete m)). rewrite Hn2, (Hm m eq_refl). reflexivity.
+  Qed.
+End SafeNames.
+
+(* C20, last clause, end to end, full: for every status the evaluator can hand to a notifier - a group of at most 2^24
+   partitions whose windows have at most 2^24 slots - a template whose abstract run is accepted renders to well-formed
+   JSON, provided cluster, group, event id, extras, topic, owner and client names are JSON-safe. *)
+Theorem json_every_status : forall sch t,
+  embed_ok sch = true -> json_skeleton_ok sch burrow_facts t = true ->
+  forall ts minimum allowed now g, bounded ts -> Eval.eval_group ts minimum allowed now = Eval.Ok g ->
+  forall nm cl gr id ex,
+    safe_string cl = true -> safe_string gr = true -> safe_string id = true ->
+    forallb (fun kv => safe_string (snd kv)) ex = true -> group_names_safe nm (Eval.filter_view g) = true ->
+    forall out s, exec sch t (data_of sch nm cl gr id ex (Eval.filter_view g)) = Ok out -> inst out s ->
+    json_valid s = true.
+Proof.
+  intros sch t He Hj ts minimum allowed now g Hb Hg nm cl gr id ex Hcl Hgr Hid Hex Hn out s Hout Hi.
+  eapply json_every_status_partial; eauto. eapply group_safe_of; eauto.
+Qed.
+
 (* ---- the regenerated tables ------------------------------------------------------------------- *)
 
 Theorem shipped_render : forall sch (tbl : list (string * tmpl)),
@@ -1145,4 +1242,20 @@ Proof.
   intros sch tbl names He Hall name Hin. rewrite forallb_forall in Hall. specialize (Hall _ Hin).
   intros ts minimum allowed now g Hg nm cl gr id ex Hcl Hgr Hid Hex Hs out s Hout Hi.
   exact (json_every_status_partial sch _ He Hall ts minimum allowed now g Hg nm cl gr id ex Hcl Hgr Hid Hex Hs out s Hout Hi).
+Qed.
+
+Theorem shipped_json : forall sch (tbl : list (string * tmpl)) (names : list string),
+  embed_ok sch = true ->
+  forallb (fun n => json_skeleton_ok sch burrow_facts (lookup_tmpl tbl n)) names = true ->
+  forall name, In name names ->
+  forall ts minimum allowed now g, bounded ts -> Eval.eval_group ts minimum allowed now = Eval.Ok g ->
+  forall nm cl gr id ex,
+    safe_string cl = true -> safe_string gr = true -> safe_string id = true ->
+    forallb (fun kv => safe_string (snd kv)) ex = true -> group_names_safe nm (Eval.filter_view g) = true ->
+    forall out s, exec sch (lookup_tmpl tbl name) (data_of sch nm cl gr id ex (Eval.filter_view g)) = Ok out ->
+    inst out s -> json_valid s = true.
+Proof.
+  intros sch tbl names He Hall name Hin. rewrite forallb_forall in Hall. specialize (Hall _ Hin).
+  intros ts minimum allowed now g Hb Hg nm cl gr id ex Hcl Hgr Hid Hex Hs out s Hout Hi.
+  exact (json_every_status sch _ He Hall ts minimum allowed now g Hb Hg nm cl gr id ex Hcl Hgr Hid Hex Hs out s Hout Hi).
 Qed.
